@@ -66,7 +66,10 @@ type FOOp struct {
 	SkipRead  bool  `json:"skip_read,omitempty"`
 
 	// Builder script, used if this Get invokes its builder.
-	BuildFail    bool      `json:"build_fail,omitempty"`
+	BuildFail bool `json:"build_fail,omitempty"`
+	// BuildPanic: the builder panics (only when it runs in the caller's own goroutine; a panic in the
+	// library's background goroutine would be an unrecovered crash of the user's process).
+	BuildPanic   bool      `json:"build_panic,omitempty"`
 	BuildSleepNs int64     `json:"build_sleep_ns,omitempty"`
 	BuildTTLs    []TTLCall `json:"build_ttls,omitempty"`
 
@@ -704,6 +707,15 @@ func (r *foRun) doGet(ci, oi int, op *FOOp, shared []byte) []byte {
 					panic(p)
 				}
 
+				if _, scripted := p.(builderPanic); scripted {
+					// the caller's own builder panicked and the caller recovered: a builder failure
+					rec.err = errBuilderPanicked
+					e.out.fault("build_panic")
+					e.logf("%s: builder panic propagated to the caller and was recovered there", rec.id())
+
+					return
+				}
+
 				rec.panicked = true
 				rec.err = fmt.Errorf("panic: %v", p)
 				e.out.violate(e.sc.Prop+".PANIC", fmt.Sprint(p), "Get(%q) panicked: %v", key, p)
@@ -768,6 +780,10 @@ func opFlags(op *FOOp) string {
 
 	return s
 }
+
+type builderPanic struct{}
+
+var errBuilderPanicked = errors.New("builder panicked (scripted)")
 
 func (r *foRun) builder(rec *opRec, ctx context.Context) (Tok, error) {
 	e := r.e
@@ -838,6 +854,14 @@ func (r *foRun) builder(rec *opRec, ctx context.Context) (Tok, error) {
 	b.exit = e.s.NextSeq()
 	b.exitNs = e.s.NowNs()
 	b.exited = true
+
+	if op.BuildPanic && !b.background {
+		b.fail = true
+		b.err = ErrTok{K: rec.key, ID: "panic" + rec.id()[1:]}
+		e.logf("build exit %s key=%q -> panic", rec.id(), rec.key)
+
+		panic(builderPanic{})
+	}
 
 	if op.BuildFail {
 		b.fail = true
